@@ -161,7 +161,7 @@ impl Sim for StoreSim {
                 id: "C01",
                 level: "exploration",
                 modes: vec!["nofault", "fault"],
-                quick_runs: 16_000,
+                quick_runs: 12_000,
                 thorough_runs: 600_000,
                 rule: "One run = one seeded plan of puts/overwrites/removes/reads over <=6 keys of all four storable kinds on a real SwarmDriver+NodeRecordStore, with the simulator deciding which parked background task (file write, file delete, completion notification) runs next; same-key tasks stay in issue order. Non-trivial = >=3 operations and (>=1 non-FIFO scheduling decision or >=1 injected fault); distinct = distinct fingerprint of the executed sequence of scheduling decisions and faults.",
                 assumptions: vec![
